@@ -27,6 +27,43 @@ Inductive sop :=
 | SReadEvents (sid : N) (k : nat)
 | SSetEmission (sid : N) (b : bool).
 
+(* joins: members of the tuple, kinds of join, items (World/Join.v gives them their meaning) *)
+Inductive member :=
+| MRead (sid : N)                                   (* &ReadStorage *)
+| MWrite (sid : N) (touch : bool) (d : option Z)    (* &mut WriteStorage; the caller adds d to the payload *)
+| MEntities                                         (* &Entities *)
+| MBits (l : list N)                                (* &BitSet *)
+| MNot (sid : N)                                    (* !&storage *)
+| MMaybe (m : member)                               (* m.maybe() *)
+| MRestrict (sid : N) (mode : N) (selmod selrem : N) (d : Z) (others : list href)
+                                                    (* &s.restrict() / &mut s.restrict_mut() / &s.restrict_mut() *)
+| MChange (k : N) (mode : N) (d : Z)                (* &cs / &mut cs / cs *)
+| MDrain (sid : N).                                 (* s.drain() *)
+
+Inductive jkind :=
+| JSeq (lim : option nat)        (* .join(), optionally .take(lim) *)
+| JLend (lim : option nat)       (* .lend_join(): next() until None / for_each *)
+| JPar (threads : nat)           (* .par_join() on a pool of that many threads; items sorted by index *)
+| JLendGet (h : href)            (* .lend_join().get(entity, &entities) *)
+| JLendIdx (i : N).              (* .lend_join().get_unchecked(index) *)
+
+Inductive jitem :=
+| JTok (t : tok) | JEnt (e : entity) | JUnit | JSome (x : jitem) | JNone
+| JPaired (g : tok) (others : list (option tok)) | JAmt (z : Z).
+
+
+Inductive jout :=
+| JItems (l : list (N * list jitem))
+| JOne (o : option (N * list jitem))
+| JSkipped.
+
+
+(* change-set operations (slot, handle, amount) *)
+Inductive csop :=
+| CsNew (k : N) | CsAdd (k : N) (h : href) (a : Z) | CsCollect (k : N) (l : list (href * Z))
+| CsExtend (k : N) (l : list (href * Z)) | CsClear (k : N) | CsDump (k : N).
+
+
 Inductive op :=
 (* creation paths *)
 | OCreate (cs : comps)               (* world.create_entity().with(..).build() *)
@@ -56,6 +93,8 @@ Inductive op :=
 | OLazyRemove (sid : N) (h : href)                      (* lazy.remove::<C>(e) *)
 | OLazyExec (prog : list op)                            (* lazy.exec(|world| ..) / exec_mut: a closure running these operations *)
 | OQuiet (so : sop)                  (* a storage operation whose result nobody observes (performed by a lazy insert/remove) *)
+| OJoin (k : jkind) (ms : list member)     (* a join over a tuple of members *)
+| OCs (c : csop)                     (* an operation on a change set held by the caller *)
 | OBad.                              (* undecodable: ignored by both sides *)
 
 Inductive wout :=
@@ -75,7 +114,10 @@ Inductive wout :=
 | WEntry (r : entry_res)
 | WSlice (v : slice_view)
 | WEvents (l : list event)
-| WReader (k : nat).                             (* refers to a handle not returned yet / bad op *)
+| WReader (k : nat)
+| WJoin (j : jout)
+| WAmts (l : list (N * Z))
+| WRaw (l : list Z).          (* an output kept in its encoded form (join items read back from a transcript) *)
 
 (* ------------------------------------------------------------------ *)
 (* decoding of histories: each op is  code, n, x1 .. xn *)
@@ -132,6 +174,71 @@ Fixpoint dec_htoks (l : list Z) : list (href * tok) :=
   | _ => []
   end.
 
+(* join members, prefix-encoded (JOINS_SPEC.md) *)
+Definition zlim (a : Z) : option nat := if Z.ltb a 0 then None else Some (Z.to_nat a).
+
+Fixpoint dec_member (fuel : nat) (l : list Z) : option (member * list Z) :=
+  match fuel with
+  | O => None
+  | S f =>
+      match l with
+      | 0 :: s :: r => Some (MRead (Z.to_N s), r)
+      | 1 :: s :: t :: w :: d :: r => Some (MWrite (Z.to_N s) (zb t) (if zb w then Some d else None), r)
+      | 2 :: r => Some (MEntities, r)
+      | 3 :: n :: r =>
+          match take_n (Z.to_nat n) r with
+          | Some (xs, r') => Some (MBits (map Z.to_N xs), r')
+          | None => None
+          end
+      | 4 :: s :: r => Some (MNot (Z.to_N s), r)
+      | 5 :: r => match dec_member f r with Some (m, r') => Some (MMaybe m, r') | None => None end
+      | 6 :: s :: mode :: sm :: sr :: d :: no :: r =>
+          match take_n (Z.to_nat no) r with
+          | Some (hs, r') => Some (MRestrict (Z.to_N s) (Z.to_N mode) (Z.to_N sm) (Z.to_N sr) d (map Z.to_nat hs), r')
+          | None => None
+          end
+      | 7 :: k :: mode :: d :: r => Some (MChange (Z.to_N k) (Z.to_N mode) d, r)
+      | 8 :: s :: r => Some (MDrain (Z.to_N s), r)
+      | _ => None
+      end
+  end%Z.
+
+Fixpoint dec_members (n : nat) (l : list Z) : option (list member) :=
+  match n with
+  | O => match l with [] => Some [] | _ => None end
+  | S n' =>
+      match dec_member (length l) l with
+      | Some (m, r) => match dec_members n' r with Some ms => Some (m :: ms) | None => None end
+      | None => None
+      end
+  end.
+
+Definition dec_jkind (k a : Z) : option jkind :=
+  match k with
+  | 0 => Some (JSeq (zlim a))
+  | 1 => Some (JLend (zlim a))
+  | 2 => Some (JPar (Z.to_nat a))
+  | 3 => Some (JLendGet (Z.to_nat a))
+  | 4 => Some (JLendIdx (Z.to_N a))
+  | _ => None
+  end%Z.
+
+Fixpoint dec_hz (l : list Z) : list (href * Z) :=
+  match l with
+  | h :: a :: l' => (Z.to_nat h, a) :: dec_hz l'
+  | _ => []
+  end.
+
+Definition dec_join (p : list Z) : option (jkind * list member) :=
+  match p with
+  | k :: a :: n :: r =>
+      match dec_jkind k a, dec_members (Z.to_nat n) r with
+      | Some jk, Some ms => Some (jk, ms)
+      | _, _ => None
+      end
+  | _ => None
+  end.
+
 Definition dec_op (code : Z) (p : list Z) : op :=
   match code, p with
   | 1, _ => OCreate (dec_comps p)
@@ -155,6 +262,13 @@ Definition dec_op (code : Z) (p : list Z) : op :=
   | 60, [s; h; u; v] => OLazyInsert (Z.to_N s) (Z.to_nat h) (Z.to_N u, v)
   | 61, s :: r => OLazyInsertAll (Z.to_N s) (dec_htoks r)
   | 62, [s; h] => OLazyRemove (Z.to_N s) (Z.to_nat h)
+  | 80, _ => match dec_join p with Some (jk, ms) => OJoin jk ms | None => OBad end
+  | 81, [k] => OCs (CsNew (Z.to_N k))
+  | 82, [k; h; a] => OCs (CsAdd (Z.to_N k) (Z.to_nat h) a)
+  | 83, k :: _ :: r => OCs (CsCollect (Z.to_N k) (dec_hz r))
+  | 84, k :: _ :: r => OCs (CsExtend (Z.to_N k) (dec_hz r))
+  | 85, [k] => OCs (CsClear (Z.to_N k))
+  | 86, [k] => OCs (CsDump (Z.to_N k))
   | _, _ => match dec_sop code p with Some so => OStore so | None => OBad end
   end%Z.
 
@@ -190,6 +304,20 @@ Definition enc_event (e : event) : list Z :=
   | ERemoved i => [2%Z; Z.of_N i]
   end.
 
+Fixpoint enc_item (x : jitem) : list Z :=
+  match x with
+  | JTok t => 1%Z :: enc_tok t
+  | JEnt e => 2%Z :: enc_ent e
+  | JUnit => [3%Z]
+  | JSome y => 4%Z :: enc_item y
+  | JNone => [5%Z]
+  | JPaired g os =>
+      6%Z :: 1%Z :: enc_tok g ++ Z.of_nat (length os) ::
+        flat_map (fun o => match o with Some t => 1%Z :: enc_tok t | None => [0%Z] end) os
+  | JAmt z => [7%Z; z]
+  end.
+Definition enc_visit (p : N * list jitem) : list Z := Z.of_N (fst p) :: flat_map enc_item (snd p).
+
 Definition enc_out (o : wout) : list Z :=
   match o with
   | WHandles l => 1%Z :: Z.of_nat (length l) :: flat_map enc_ent l
@@ -218,6 +346,12 @@ Definition enc_out (o : wout) : list Z :=
   | WSlice (SliceAll l) => 17%Z :: 2%Z :: Z.of_nat (length l) :: flat_map enc_tok l
   | WEvents l => 18%Z :: Z.of_nat (length l) :: flat_map enc_event l
   | WReader k => [19%Z; Z.of_nat k]
+  | WJoin (JItems l) => 21%Z :: Z.of_nat (length l) :: flat_map enc_visit l
+  | WJoin (JOne None) => [22%Z; 0%Z]
+  | WJoin (JOne (Some p)) => 22%Z :: 1%Z :: enc_visit p
+  | WJoin JSkipped => [8%Z]
+  | WAmts l => 21%Z :: Z.of_nat (length l) :: flat_map (fun p => [Z.of_N (fst p); 7%Z; snd p]) l
+  | WRaw l => l
   end.
 
 Fixpoint dec_ents (n : nat) (l : list Z) : option (list entity) :=
@@ -281,6 +415,8 @@ Definition dec_out (l : list Z) : option wout :=
   | 17 :: 2 :: n :: r => match dec_toks (Z.to_nat n) r with Some ts => Some (WSlice (SliceAll ts)) | None => None end
   | 18 :: n :: r => match dec_events (Z.to_nat n) r with Some es => Some (WEvents es) | None => None end
   | [19; k] => Some (WReader (Z.to_nat k))
+  | 21 :: _ => Some (WRaw l)
+  | 22 :: _ => Some (WRaw l)
   | _ => None
   end%Z.
 
